@@ -83,10 +83,25 @@ def make_pool(rng, dl):
     return [v for v in base]
 
 
-def idx(rng, n, valid=0.85):
+def wrap_indices(dl, n):
+    """indices whose *byte offset* `index * data_length` wraps around size_t back into the buffer
+    (a range check on the byte offset instead of the index would accept them), plus 2^32 + k"""
+    q = -(-2**64 // dl)          # ceil(2^64 / dl)
+    out = []
+    for j in (1, 2, 3):
+        for k in range(0, n + 1):
+            if q * j + k <= SIZE_MAX:
+                out.append(q * j + k)
+    out += [2**32] + [2**32 + k for k in range(0, n + 1)]
+    return out
+
+
+def idx(rng, n, valid=0.85, dl=1):
     """an index, mostly inside [0,n)"""
     if n > 0 and rng.random() < valid:
         return rng.randrange(n)
+    if rng.random() < 0.35:
+        return rng.choice(wrap_indices(dl, min(n, 3)))
     return rng.choice([n, n + 1, n - 1 if n else 0, 2**31, 2**63, SIZE_MAX - 1, SIZE_MAX, 0])
 
 
@@ -110,28 +125,32 @@ def core_op(h, o, rng, weights=None, reject=False):
         s.xs.append(s.norm(v))
     elif op == "add_at":
         v = h.val()
-        i = rng.randrange(n + 1) if rng.random() < valid else idx(rng, n, 0)
+        i = rng.randrange(n + 1) if rng.random() < valid else idx(rng, n, 0, s.dl)
         h.ops.append(f"add_at {v} {i}{suf}")
         if i <= n:
             s.xs.insert(i, s.norm(v))
     elif op == "replace_at":
         v = h.val()
-        i = idx(rng, n, valid)
+        i = idx(rng, n, valid, s.dl)
         h.ops.append(f"replace_at {v} {i}{suf}" + (" noout=1" if rng.random() < 0.2 else ""))
         if i < n:
             s.xs[i] = s.norm(v)
     elif op == "swap_at":
-        i, j = idx(rng, n, valid), idx(rng, n, valid)
+        i, j = idx(rng, n, valid, s.dl), idx(rng, n, valid, s.dl)
+        if rng.random() < 0.1:
+            j = i                      # swap_at(i, i)
         h.ops.append(f"swap_at {i} {j}{suf}")
         if i < n and j < n:
             s.xs[i], s.xs[j] = s.xs[j], s.xs[i]
     elif op == "remove":
         v = h.val(present_from=None if reject else s.xs)
+        if s.xs and rng.random() < 0.15:
+            v = s.xs[-1]               # an element equal to the last one
         h.ops.append(f"remove {v}{suf}")
         if s.norm(v) in s.xs:
             s.xs.remove(s.norm(v))
     elif op == "remove_at":
-        i = idx(rng, n, valid)
+        i = idx(rng, n, valid, s.dl)
         h.ops.append(f"remove_at {i}{suf}" + (" noout=1" if rng.random() < 0.2 else ""))
         if i < n:
             del s.xs[i]
@@ -158,7 +177,7 @@ def core_op(h, o, rng, weights=None, reject=False):
         if fn == "inc":
             s.xs[:] = [frombytes([(b + 1) % 256 for b in tobytes(v, s.dl)]) for v in s.xs]
     elif op in ("get_at", "peek"):
-        h.ops.append(f"{op} {idx(rng, n, valid)}{suf}")
+        h.ops.append(f"{op} {idx(rng, n, valid, s.dl)}{suf}")
     elif op in ("get_last", "reduce", "size", "capacity"):
         h.ops.append(f"{op}{suf}")
     elif op in ("index_of", "contains"):
@@ -253,7 +272,9 @@ def derive(h, src, to, rng):
             b = rng.randrange(n)
             e = rng.randrange(b, n)
         else:
-            b, e = rng.choice([(1, 0), (0, n), (n, n), (0, SIZE_MAX), (SIZE_MAX, SIZE_MAX), (2, 1), (0, 2**63)])
+            wi = wrap_indices(s.dl, min(n, 3))
+            b, e = rng.choice([(1, 0), (0, n), (n, n), (0, SIZE_MAX), (SIZE_MAX, SIZE_MAX), (2, 1), (0, 2**63),
+                               (0, rng.choice(wi)), (rng.choice(wi), rng.choice(wi)), (rng.choice(wi), n - 1 if n else 0)])
         h.ops.append(f"mk_sub {b} {e} to={to}{suf}")
         if b <= e < n:
             h.sh[to] = Shadow(s.dl, s.xs[b:e + 1])
@@ -380,14 +401,14 @@ class ArraySizedGen:
 
     def _small_reject(self, quick):
         out = []
-        B = [0, 1, 2, 3, 2**31, 2**63, SIZE_MAX - 1, SIZE_MAX]
-        for dl in (1, 3):
+        B0 = [0, 1, 2, 3, 2**31, 2**63, SIZE_MAX - 1, SIZE_MAX]
+        for dl in (1, 2, 3, 8, 17):
             for n in range(0, 3):
                 base = [f"new esize={dl} cap=2 exp=2"] + [f"add {i + 1}" for i in range(n)]
-                for i in B:
+                for i in B0 + wrap_indices(dl, n):
                     out.append(base + [f"get_at {i}", f"peek {i}", f"remove_at {i}", f"replace_at 9 {i}", f"add_at 9 {i}",
-                                       f"swap_at {i} 0", f"swap_at 0 {i}", f"mk_sub {i} {i} to=1", f"mk_sub 0 {i} to=2", "destroy"])
-                out.append(base + ["remove 77", "index_of 77", "contains 77", "get_last", "remove_last", "filter_mut p=all",
+                                       f"swap_at {i} 0", f"swap_at 0 {i}", f"swap_at {i} {i}", f"mk_sub {i} {i} to=1", f"mk_sub 0 {i} to=2", "destroy"])
+                out.append(base + [f"add {n}", f"remove {n}", "remove 77", "index_of 77", "contains 77", "get_last", "remove_last", "filter_mut p=all",
                                    "mk_filter p=all to=1", "it_new", "it_remove", "it_replace 4", "destroy"])
         return out
 
